@@ -47,7 +47,10 @@ def main():
         except Timeout:
             rec['outcome'] = 'timeout'
         except MemoryError:
-            rec['outcome'] = 'memory'
+            # an allocation request refused outright (e.g. the unpickler asked for a declared length) costs nothing and is an ordinary
+            # exception; memory that was really used shows in the growth of the peak resident set, judged below
+            rec['outcome'] = 'exception'
+            rec['exc'] = 'MemoryError'
         except Exception as e:
             rec['outcome'] = 'exception'
             rec['exc'] = type(e).__name__
